@@ -46,7 +46,22 @@ class OutOfModel(Exception):
 
 
 class NotADatabase(Exception):
-    """a parse route returned something that is not a `Database`"""
+    """a parse route returned something that is not a `Database`, or an attribute of the content holds an
+    object that is not a plain value (e.g. a pyparsing result stored where a string belongs)"""
+
+
+def _check_plain(x, path='db'):
+    if x is None or isinstance(x, (str, bool, int)):
+        return
+    if isinstance(x, dict):
+        for k, v in x.items():
+            _check_plain(v, f'{path}.{k}')
+        return
+    if isinstance(x, list):
+        for i, v in enumerate(x):
+            _check_plain(v, f'{path}[{i}]')
+        return
+    raise NotADatabase(f'{path} holds a {type(x).__name__}')
 
 
 def _idx_is(lst, obj):
@@ -178,6 +193,12 @@ def dump_db(db):
     if not isinstance(db, Database):
         raise NotADatabase(type(db).__name__)
     p = db.project
+    d = _dump_db(db, p)
+    _check_plain(d)
+    return d
+
+
+def _dump_db(db, p):
     return {
         'tables': [dump_table(t, db) for t in db.tables],
         'refs': [dump_ref(r, db) for r in db.refs],
@@ -189,6 +210,31 @@ def dump_db(db):
             'comment': p.comment},
         'allow_properties': bool(db.allow_properties),
     }
+
+
+def object_state(root):
+    """Attribute-level fingerprint of every pydbml object reachable from `root`: for each object its type, the names
+    of its instance attributes and the plain values among them.  A cache written by a rendering shows up as a new or
+    changed attribute even when the content dump is unchanged."""
+    seen = {}
+    stack = [root]
+    while stack:
+        o = stack.pop()
+        if id(o) in seen or isinstance(o, (str, bytes, int, float, bool, type(None), type)):
+            continue
+        mod = getattr(type(o), '__module__', '') or ''
+        if isinstance(o, (list, tuple, set, frozenset)):
+            seen[id(o)] = ('seq', type(o).__name__, len(o))
+            stack.extend(o)
+        elif isinstance(o, dict):
+            seen[id(o)] = ('dict', sorted(map(repr, o.keys())))
+            stack.extend(o.values())
+        elif mod.startswith('pydbml.'):
+            d = vars(o) if hasattr(o, '__dict__') else {}
+            seen[id(o)] = (type(o).__name__, sorted(d.keys()),
+                           sorted((k, repr(v)) for k, v in d.items() if isinstance(v, (str, int, float, bool, type(None)))))
+            stack.extend(d.values())
+    return seen
 
 
 def strip_comments(d):
